@@ -407,6 +407,8 @@ def run(ctx: Ctx):
         "fix approved); containers with star-expressions are not rewritten; with agreeing parts and create,fix the managed siblings are repaired (test passes disabled). "
         "C: the same kinds of user-controlled parts inside snapshots that are never compared (module level), used with `in`, or used as sub-snapshots `s[k]` in a loop "
         "(re-evaluation): texts survive every approved set (a never-tested `in` member may be trimmed as a whole) and the loop passes. "
+        "D: nested lists / tuples (depth <= 3) holding Is(variable) leaves at any depth x edited observed values x subsets of {fix, update}: the rewritten argument vs "
+        "Model/TreeAssign.v in Coq; remaining user-controlled parts are a subsequence of the old ones, none disappears without fix. "
         "non-trivial = at least one user-controlled part and one managed difference")
     proof_step(ctx)
     n = 400 if not ctx.thorough else 4000
@@ -455,6 +457,35 @@ def run(ctx: Ctx):
         if why:
             ctx.report("C10 oracle: " + why, {"kind": "usage", "case": c, "after_arg": o.get("arg")})
     ctx.coverage["oracle"]["usage_cases"] = mu
+    # D: nested lists / tuples with Is(...) leaves at any depth vs Model/TreeAssign.v
+    from .. import treeassign as ta
+    nd = 400 if not ctx.thorough else 4000
+    ta.UNM[0] = 0.4
+    try:
+        tcases = [ta.gen_case(ctx.rng) for _ in range(nd)]
+    finally:
+        ta.UNM[0] = 0.0
+    touts = pmap(ta.run_case, tcases, chunksize=8)
+    tterms, tidx = [], []
+    for i, (c, o) in enumerate(zip(tcases, touts)):
+        ctx.count(("tree", repr(c)), bool(ta.unms(c["tree"])) and ta.tree_value(c["tree"]) != c["new"])
+        ctx.dist("D.unmanaged_leaves=%d" % min(len(ta.unms(c["tree"])), 4))
+        if o["session_exc"] or "error" in o:
+            ctx.report(f"nested == snapshot with Is() leaves: run failed: {o['session_exc'] or o.get('error')}", {"kind": "tree", "case": dict(c, new_repr=repr(c["new"])), "source": o["source"]})
+            continue
+        why = ta.oracle(c, o)
+        if why:
+            ctx.report("C10 oracle (nested container): " + why, {"kind": "tree", "case": dict(c, new_repr=repr(c["new"])), "source": o["source"], "after_arg": o["arg"]})
+            continue
+        tterms.append(ta.g_case(c, o))
+        tidx.append(i)
+    tbad = coq_eval_shards(ctx, "treeassign", "Model.SnapOps Model.TreeAssign Corr.TreeAssignCorr", "case", tterms, "mismatches")
+    ctx.coverage["traces_validated_against_impl"] += len(tterms)
+    ctx.coverage["correspondence"]["nested_assign_with_unmanaged_leaves"] = {"cases": len(tterms), "mismatches": len(tbad)}
+    for j in tbad[:10]:
+        c, o = tcases[tidx[j]], touts[tidx[j]]
+        ctx.report(f"Model/TreeAssign.v and implementation differ (oracle silent): {ta.render_tree(c['tree'])} observed {c['new']!r} flags {c['flags']} -> {o['arg']}",
+                   {"kind": "tree", "case": dict(c, new_repr=repr(c["new"])), "source": o["source"]}, no_input=True, kind="correspondence")
 
 
 def replay(ctx: Ctx, data):
@@ -464,6 +495,15 @@ def replay(ctx: Ctx, data):
         o = run_case(case)
         print(o.get("arg"))
         return judge(case, o) is None
+    if c.get("kind") == "tree":
+        from .. import treeassign as ta
+
+        def tt(t):
+            return tuple(t) if t[0] in ("leaf", "unm") else (t[0], [tt(x) for x in t[1]])
+        case = {"tree": tt(c["case"]["tree"]), "new": eval(c["case"]["new_repr"]), "flags": tuple(c["case"]["flags"])}
+        o = ta.run_case(case)
+        print(o.get("arg"), o.get("error"), o.get("session_exc"))
+        return not o["session_exc"] and "error" not in o and ta.oracle(case, o) is None
     if c.get("kind") == "usage":
         case = dict(c["case"], flags=tuple(c["case"]["flags"]))
         o = run_usage(case)
